@@ -355,7 +355,7 @@ func (ex *Exec) valueLen(st *State, v Value) *Term {
 	case StrVal:
 		return C(64, uint64(x.Len()))
 	case SliceVal:
-		if x.Kind != SliceNormal {
+		if x.Kind != SliceNormal || x.LenT != nil {
 			return x.LenT
 		}
 		return C(64, uint64(x.Len))
@@ -443,6 +443,17 @@ func (ex *Exec) builtinCopy(st *State, dst SliceVal, src Value) *Term {
 	}
 	var n int
 	var get func(i int) Value
+	if sv, ok := src.(SliceVal); ok && (dst.SymLen() || sv.SymLen()) {
+		// number of elements copied = min of the two lengths; at least one of them is symbolic
+		if sv.Kind != SliceNormal {
+			unsup("copy from blob")
+		}
+		dl, sl := ex.valueLen(st, dst), ex.valueLen(st, sv)
+		cnt := int(ex.concretize(st, ex.tt.Ite(ex.tt.Slt(dl, sl), dl, sl), "copy count"))
+		dst.Len, dst.LenT = cnt, nil
+		sv.Len, sv.LenT = cnt, nil
+		src = sv
+	}
 	switch s := src.(type) {
 	case SliceVal:
 		if s.Kind != SliceNormal {
